@@ -205,7 +205,7 @@ def gen_case(rng, family):
     text = text.encode("utf-8").decode("latin1")
     heuristic = H_CONST if rng.random() < 0.15 else H_COV
     tro = rng.choice(["True", "False"])
-    ncands = (ncols if tro == "True" else ncols * (ncols + 1) // 2 + ncols - 1)
+    ncands = (ncols if tro == "True" else ncols * (ncols + 1) // 2)      # every unordered pair once (repo b3d9d15)
     cap = rng.choice([2 ** 15, 2 ** 15, ncands, ncands + 1, 10 ** 6])
     return {"text": text, "B": B, "s": s, "label": label, "tro": tro, "heuristic": heuristic, "cap": cap,
             "family": family, "ncols": ncols, "nlines": len(lines), "good_selected": good_sel, "eol": eolk,
